@@ -72,6 +72,59 @@ def make(pid, macro, profile, idx, seed, gates=None, heavy=False, amap=False):
                    unwind=64 if not is_async else max(12, pp.max_polls() + 3))
 
 
+def make_wrapper_step(pid, macro, tok, idx):
+    """a later step that is opened by a DEFERRED wrapper (`~X >>> inner <<<`): the whole wrapper belongs to the next step, so nothing inside it
+    runs once the previous step has failed in ANY branch (and `~<= >>>` / `~!> >>>`, which act on the error side, never run at all: a step
+    that is reached holds a success).  Two branches; branch 1 carries the wrapper step; every ok flag and payload symbolic"""
+    is_async, is_try, is_spawn = KINDS[macro]
+    EW, EC0, EC2 = 40, 41, 42
+    if is_async:
+        inner = {"=>": "-> move |x: u8| { ev(%d); ready(mk(o1_1, x ^ q)) }" % EW,
+                 "<=": "-> move |e: u8| { ev(%d); ready(mk(o1_1, e ^ q)) }" % EW,
+                 "!>": "-> move |e: u8| { ev(%d); e ^ q }" % EW}[tok]
+        b0 = "ready(mk(o0_0, p0)) |> move |r: Result<u8, u8>| { ev(%d); r }" % EC0
+        b1 = "ready(mk(o1_0, p1)) ~%s >>> %s <<< ~|> move |r: Result<u8, u8>| { ev(%d); r }" % (tok, inner, EC2)
+    else:
+        inner = {"=>": "-> move |x: u8| { ev(%d); mk(o1_1, x ^ q) }" % EW,
+                 "|>": "-> move |x: u8| { ev(%d); x ^ q }" % EW,
+                 "??": "-> move |r: &Result<u8, u8>| { ev(%d); }" % EW,
+                 "<=": "-> move |e: u8| { ev(%d); mk(o1_1, e ^ q) }" % EW,
+                 "!>": "-> move |e: u8| { ev(%d); e ^ q }" % EW}[tok]
+        b0 = "mk(o0_0, p0) |> move |v: u8| { ev(%d); v }" % EC0
+        b1 = "mk(o1_0, p1) ~%s >>> %s <<< ~|> move |v: u8| { ev(%d); v }" % (tok, inner, EC2)
+    text = "%s! {\n        %s,\n        %s\n    }" % (macro, b0, b1)
+    msg = lambda t: "\"C06[%s]: %s\"" % (pid, t)
+    L = ["names_off();" if is_spawn and not is_async else "", "let o0_0 = b(); let o1_0 = b(); let o1_1 = b(); let p0 = u(); let p1 = u(); let q = u();"]
+    if is_async:
+        L.append("let mut fut = %s;" % text)
+        L.append("let (r, polls, lost) = drive(&mut fut, 4);")
+        L.append("vassert!(r.is_some(), %s);" % msg("completes"))
+        L.append("let r = r.unwrap();")
+    else:
+        L.append("let r = %s;" % text)
+    step1_fails = "!o1_1" if tok == "=>" else "false"
+    v1 = "p1 ^ q" if tok in ("=>", "|>") else "p1"
+    # closed form (C05): first failure in step order, branch order
+    if is_async:
+        # (an async try macro may report either failing branch of a step)
+        L.append("if !o0_0 && o1_0 { vassert!(r == Err(p0), %s); }" % msg("result"))
+        L.append("if o0_0 && !o1_0 { vassert!(r == Err(p1), %s); }" % msg("result"))
+        L.append("if !o0_0 && !o1_0 { vassert!(r == Err(p0) || r == Err(p1), %s); }" % msg("result"))
+    else:
+        L.append("if !o0_0 { vassert!(r == Err(p0), %s); } else if !o1_0 { vassert!(r == Err(p1), %s); }" % (msg("result"), msg("result")))
+    L.append("if o0_0 && o1_0 { vassert!(r == if %s { Err(%s) } else { Ok((p0, %s)) }, %s); }" % (step1_fails, v1, v1, msg("result")))
+    if tok in ("<=", "!>"):
+        L.append("vassert!(cnt(%d) == 0, %s);" % (EW, msg("an error-side wrapper of a later step never runs: a step is reached only with a success")))
+    else:
+        L.append("vassert!(cnt(%d) == (o0_0 && o1_0) as u8, %s);" % (EW, msg("nothing inside a `~X >>> .. <<<` step is evaluated after the previous step failed in any branch; it runs once otherwise")))
+    L.append("vassert!(cnt(%d) == (o0_0 && o1_0 && !(%s)) as u8, %s);" % (EC2, step1_fails, msg("the step after the wrapper step runs iff no earlier step failed")))
+    L.append("vcover!(!o0_0 && o1_0, \"the other branch fails in the step before the wrapper step\");")
+    L.append("vcover!(o0_0 && !o1_0, \"the wrapper's own branch fails in the step before\");")
+    L.append("vcover!(o0_0 && o1_0, \"wrapper step reached\");")
+    return Program(pid, text, "    " + "\n    ".join(l for l in L if l), desc=dict(macro=macro, wrapper=tok, deferred=True, symbolic=["ok flags", "payloads"] + (["early/late bit per thread"] if is_spawn and not is_async else [])),
+                   group="wrapper-step/" + macro, role=dict(kind=macro), unwind=64 if not is_async else 12, solo=is_async, weight=2)
+
+
 def programs(tier, seed):
     ps = []
     i = 0
@@ -96,6 +149,12 @@ def programs(tier, seed):
     for macro, prof in (("try_join_async", (3,)), ("try_join_async", (1, 3)), ("try_join_async", (3, 1)), ("try_join_async_spawn", (1, 3)), ("try_join_async", (2, 3))):
         i += 1
         ps.append(make("p%04d" % i, macro, prof, i, seed, gates=0, amap=True))
+    for macro, toks in (("try_join", ("=>", "|>", "??", "<=", "!>")), ("try_join_spawn", ("=>", "??", "<=")), ("try_join_async", ("=>", "<="))):
+        for tok in toks:
+            i += 1
+            if tier == "quick" and macro == "try_join_spawn" and tok != ["=>", "??", "<="][seed % 3]:
+                continue
+            ps.append(make_wrapper_step("p%04d" % i, macro, tok, i))
     return ps
 
 
